@@ -8,16 +8,16 @@ META = dict(
     design_ref='DESIGN.md section 4, C16',
     technique='Coq proof (refinement of the streaming MD5/SHA-1/HMAC/CBC objects to pad-then-fold specifications) + '
               'source-regenerated leaf functions and constant tables + extracted-model correspondence + independent oracle',
-    level_text=('Theorems in coq/C16/Props.v (25, closed, no axioms): the bundled MD5 and SHA-1 objects, fed any list of chunks (empty ones '
+    level_text=('Theorems in coq/C16/Props.v (31, closed, no axioms): the bundled MD5 and SHA-1 objects, fed any list of chunks (empty ones '
                 'included; MD5 chunks < 2^31 bytes), read out the RFC 1321 / FIPS 180-4 pad-then-fold digest of the concatenation; k messages '
                 'through one object each get their own digest (reset after readout, from any state); the MD5 step table and IV of the code equal '
                 'the RFC-formula ones; the 80-round SHA-1 function of the code equals FIPS 180-4 6.1.2 written from the standard; the HMAC object '
                 'equals RFC 2104 for every key length, chunking and reuse given only streaming + reset of its digest object, instantiated for MD5 '
                 'and SHA-1; CBC decryption inverts encryption over any block cipher with D(E b)=b for every split of the calls, and only block 1 '
                 'depends on the decryptor IV; key::set_hex decodes exactly even-length hex strings; cbc serves calls iff key and IV were set; '
-                'name dispatch is case-insensitive with digest_size <= block_size. coq/C16/Link.v (22 lemmas): MD5 T constants, F/G/H/I, '
+                'name dispatch is case-insensitive with digest_size <= block_size; hmac_cipher/aes_cipher (abstract MAC and cipher) decrypt their own output for any running IVs and accept only authentic bodies. coq/C16/Link.v (27 lemmas): MD5 T constants, F/G/H/I, '
                 'ROTATE_LEFT (translated by cxx2v from the macros of the current src/md5.cpp), the 64 SET lines and md5_init constants '
-                '(text extractor), sha1.h left_rotate and key::from_hex are equal to the model leafs.'),
+                '(text extractor), the numbers of sha1.h process_block/reset (text extractor with a rigid shape check), left_rotate and key::from_hex are equal to the model leafs.'),
     level_note=('Trusted: Coq kernel + vm_compute; cxx2v + clang AST and the md5 step-table text extractor in checks/C16.py; extraction; the '
                 'loops/buffering around the leafs (md5_append/finish, sha1 process_byte/get_digest, hmac, key, cbc wrappers) are hand-modelled '
                 'and tied by correspondence on the block-boundary grid; SHA-2 and AES are library code (OpenSSL): only the wrappers are in /repo, '
@@ -239,6 +239,60 @@ def gen_hmac_cases(ctx, algos, model_side):
     return cases
 
 
+SHA1_BLOCK_SHAPE = (
+    r'unsignedintw\[80\];for\(std::size_ti=0;i<16;\+\+i\)\{w\[i\]=\(block_\[i\*4\+0\]<<24\);w\[i\]\|=\(block_\[i\*4\+1\]<<16\);'
+    r'w\[i\]\|=\(block_\[i\*4\+2\]<<8\);w\[i\]\|=\(block_\[i\*4\+3\]\);\}'
+    r'for\(std::size_ti=16;i<80;\+\+i\)\{w\[i\]=left_rotate\(\(w\[i-(\d+)\]\^w\[i-(\d+)\]\^w\[i-(\d+)\]\^w\[i-(\d+)\]\),(\d+)\);\}'
+    r'unsignedinta=h_\[0\];unsignedintb=h_\[1\];unsignedintc=h_\[2\];unsignedintd=h_\[3\];unsignedinte=h_\[4\];'
+    r'for\(std::size_ti=0;i<80;\+\+i\)\{unsignedintf;unsignedintk;'
+    r'if\(i<(\d+)\)\{f=\(b&c\)\|\(~b&d\);k=(0x[0-9A-Fa-f]+);\}'
+    r'elseif\(i<(\d+)\)\{f=b\^c\^d;k=(0x[0-9A-Fa-f]+);\}'
+    r'elseif\(i<(\d+)\)\{f=\(b&c\)\|\(b&d\)\|\(c&d\);k=(0x[0-9A-Fa-f]+);\}'
+    r'else\{f=b\^c\^d;k=(0x[0-9A-Fa-f]+);\}'
+    r'unsignedtemp=left_rotate\(a,(\d+)\)\+f\+e\+k\+w\[i\];e=d;d=c;c=left_rotate\(b,(\d+)\);b=a;a=temp;\}'
+    r'h_\[0\]\+=a;h_\[1\]\+=b;h_\[2\]\+=c;h_\[3\]\+=d;h_\[4\]\+=e;')
+
+
+def gen_sha1_consts():
+    """Text extractor for private/sha1.h: process_block() must have exactly the known shape (any edit is reported as a broken
+    tie for review); its numbers (schedule offsets and rotation, round thresholds, K constants, rotation amounts) and the
+    constants of reset() go to coq/gen/Gen_C16_sha1consts.v; Link.v proves them equal to the model's."""
+    src = open(os.path.join(vlib.REPO, 'private', 'sha1.h')).read()
+    src = re.sub(r'//[^\n]*', '', src)
+    m = re.search(r'inline void sha1::process_block\(\)\s*\{(.*?)\n\}', src, re.S)
+    if not m:
+        raise ExtractError('sha1::process_block() not found')
+    mm = re.fullmatch(SHA1_BLOCK_SHAPE, _norm(m.group(1)))
+    if not mm:
+        raise ExtractError('sha1::process_block() does not have the expected shape')
+    g = mm.groups()
+    offs, srot = [int(x) for x in g[0:4]], int(g[4])
+    thr = [int(g[5]), int(g[7]), int(g[9])]
+    ks = [int(g[6], 16), int(g[8], 16), int(g[10], 16), int(g[11], 16)]
+    rota, rotb = int(g[12]), int(g[13])
+    r = re.search(r'inline void sha1::reset\(\)\s*\{(.*?)\n\}', src, re.S)
+    if not r:
+        raise ExtractError('sha1::reset() not found')
+    rb = _norm(r.group(1))
+    h = []
+    for i in range(5):
+        x = re.search(r'h_\[%d\]=(0x[0-9A-Fa-f]+);' % i, rb)
+        if not x:
+            raise ExtractError('sha1::reset(): h_[%d] not recognised' % i)
+        h.append(int(x.group(1), 16))
+    if 'block_byte_index_=0;byte_count_=0;' not in rb:
+        raise ExtractError('sha1::reset(): counters not reset')
+    L = lambda v: '[%s]' % '; '.join(str(x) for x in v)
+    txt = ('(* GENERATED by checks/C16.py (gen_sha1_consts) from private/sha1.h -- do not edit *)\n'
+           'From Coq Require Import ZArith List.\nImport ListNotations.\nLocal Open Scope Z_scope.\n'
+           'Definition g_sha1_sched_offsets : list Z := %s.\nDefinition g_sha1_sched_rot : Z := %d.\n'
+           'Definition g_sha1_thresholds : list Z := %s.\nDefinition g_sha1_K : list Z := %s.\n'
+           'Definition g_sha1_rot_a : Z := %d.\nDefinition g_sha1_rot_b : Z := %d.\nDefinition g_sha1_h0 : list Z := %s.\n'
+           % (L(offs), srot, L(thr), L(ks), rota, rotb, L(h)))
+    with vlib.Lock('gen-Gen_C16_sha1consts'):
+        vlib.write_if_changed(os.path.join(vlib.COQ, 'gen', 'Gen_C16_sha1consts.v'), txt)
+
+
 HEXCH = b'0123456789abcdefABCDEF'
 
 
@@ -267,6 +321,14 @@ def gen_key_cases(ctx):
             tail += b'\x0b'          # vertical tab is not stripped
         cases.append('keyf ' + hexs(s + tail))
         cases.append('keyf ' + hexs(rbytes(rng, rng.randrange(0, 3)) + s + tail))
+    return cases
+
+
+def gen_hexkey_cases(ctx):
+    rng = ctx.rng
+    cases = ['hexkey -'] + ['hexkey %02x' % b for b in range(256)]
+    for _ in range(ctx.scale(300, 3000)):
+        cases.append('hexkey ' + hexs(rbytes(rng, rng.choice([1, 2, 15, 16, 20, 24, 32, 64, rng.randrange(1, 200)]))))
     return cases
 
 
@@ -398,7 +460,7 @@ def gen_sess_cases(ctx):
 
 def gen_cases(ctx):
     """returns (cases run on both model and implementation, cases run on the implementation only)"""
-    both = (gen_digest_cases(ctx, MODELLED, True) + gen_hmac_cases(ctx, MODELLED, True) + gen_key_cases(ctx)
+    both = (gen_digest_cases(ctx, MODELLED, True) + gen_hmac_cases(ctx, MODELLED, True) + gen_key_cases(ctx) + gen_hexkey_cases(ctx)
             + gen_name_cases(ctx) + gen_cbcst_cases(ctx))
     impl = (gen_digest_cases(ctx, ALGOS, False) + gen_hmac_cases(ctx, ALGOS, False) + gen_cbc_cases(ctx) + gen_rekey_cases(ctx) + gen_sess_cases(ctx) + gen_big_cases(ctx))
     rng = ctx.rng
@@ -568,6 +630,10 @@ def oracle(case, out):
     elif op == 'key':
         if ' '.join(o[1:]) != py_set_hex(unhex(c[1])):
             return ('key-set_hex-wrong', 'set_hex must accept exactly the even-length hexadecimal strings and decode them; got %s expected %s' % (' '.join(o[1:]), py_set_hex(unhex(c[1]))))
+    elif op == 'hexkey':
+        d = unhex(c[1])
+        if len(o) != 3 or unhex(o[1]) != d.hex().encode() or o[2] != 'rt=1':
+            return ('key-hex-writer-reader-disagree', 'tohex(%s) = %s, read back by key(std::string): %s' % (c[1], ' '.join(o[1:2]), o[-1]))
     elif op == 'keyf':
         s = unhex(c[1])
         exp = 'emptyfile' if not s else py_set_hex(s.rstrip(b' \n\r\t'))
@@ -684,7 +750,7 @@ def nontrivial(case, out):
         return len(c) > 2
     if c[0] == 'rekey':
         return c[2] != c[3]
-    if c[0] in ('key', 'keyf', 'name'):
+    if c[0] in ('key', 'keyf', 'name', 'hexkey'):
         return c[1] != '-'
     return True
 
@@ -726,13 +792,14 @@ def run(ctx):
     errs = vlib.gen_coq(GEN)
     for n, e in errs:
         ctx.broke('translator cxx2v failed on %s (tie to source broken)' % n, e)
-    try:
-        gen_md5_steps()
-    except (ExtractError, OSError) as e:
-        ctx.broke('md5 step-table extractor failed (tie to source broken)', str(e))
-        with vlib.Lock('gen-Gen_C16_md5steps'):
-            vlib.write_if_changed(os.path.join(vlib.COQ, 'gen', 'Gen_C16_md5steps.v'),
-                                  '(* extractor failed: %s *)\nDefinition broken : False := I.\n' % re.sub(r'[^A-Za-z0-9 ,.:=+-]', ' ', str(e)))
+    for fn, genname in ((gen_md5_steps, 'Gen_C16_md5steps'), (gen_sha1_consts, 'Gen_C16_sha1consts')):
+        try:
+            fn()
+        except (ExtractError, OSError) as e:
+            ctx.broke('%s extractor failed (tie to source broken)' % fn.__name__, str(e))
+            with vlib.Lock('gen-' + genname):
+                vlib.write_if_changed(os.path.join(vlib.COQ, 'gen', genname + '.v'),
+                                      '(* extractor failed: %s *)\nDefinition broken : False := I.\n' % re.sub(r'[^A-Za-z0-9 ,.:=+-]', ' ', str(e)))
     res = vlib.coq_props('C16', extra_files=['C16/Link.v'])
     ctx.proof(res)
     ctx.coverage['trusted_base'] = [
@@ -746,6 +813,8 @@ def run(ctx):
                        'size_t -> int conversion of the md5 append size is two-s-complement truncation (gcc/clang); chunks of 2^31 bytes or more are outside the proved domain',
                        'the digest handed to hmac::hmac(digest,key) is fresh (nothing appended yet)',
                        'CBC theorems: the block cipher satisfies D(E b) = b on 16-byte blocks (Section hypothesis, AES itself is library code)',
+                       'session-cipher theorems: abstract MAC with |mac m| = digest_size, block cipher with D(E b)=b and 16-byte blocks, text shorter than 2^32 bytes; model tied by reading + sess oracle (not extracted)',
+                       'sha1_spec_is_fips180: bytes are < 256',
                        'HMAC theorem: the digest object satisfies the streaming and reset-after-readout facts (proved for MD5 and SHA-1, Section hypotheses for the OpenSSL SHA-2 objects)']
     exe, err = vlib.build_harness('C16_crypto', ['C16_crypto.cpp'])
     if not exe:
@@ -793,4 +862,4 @@ def modelled(line):
         return False
     if c[0] in ('dg', 'hm'):
         return len(c) > 1 and c[1] in MODELLED
-    return c[0] in ('key', 'keyf', 'name', 'cbcst')
+    return c[0] in ('key', 'keyf', 'name', 'cbcst', 'hexkey')
